@@ -7,6 +7,7 @@ HERE = os.path.dirname(os.path.dirname(os.path.abspath(__file__)))
 HEAD = subprocess.run(["git", "-C", "/repo", "rev-parse", "--short", "HEAD"], capture_output=True, text=True).stdout.strip()
 
 def sh(cmd, **kw):
+    kw.setdefault("env", dict(os.environ, PYTHONDONTWRITEBYTECODE="1"))  # no stale bytecode between the patched and the restored tree
     return subprocess.run(cmd, capture_output=True, text=True, **kw)
 
 def one(d):
@@ -27,11 +28,11 @@ def one(d):
         t = sh(["/venv/bin/python", "-m", "pytest", "-q", "-p", "no:cacheprovider"], cwd=w)
         res["tests"] = (t.stdout.strip().splitlines() or ["?"])[-1]
         res["demo_with_change"] = sh(["/venv/bin/python", os.path.join(d, "demo.py")], cwd=w).returncode
-        env = dict(os.environ, VERIF_REPO=w, VERIF_JOBS="4")
+        env = dict(os.environ, VERIF_REPO=w, VERIF_JOBS="4", PYTHONDONTWRITEBYTECODE="1")
         c = sh([os.path.join(HERE, "check"), meta["property"], "quick"], cwd=HERE, env=env)
         res["check_exit"] = c.returncode
         res["mechanisms"] = [l.split("mechanism=")[1].split(" ")[0] for l in c.stdout.splitlines() if l.startswith("violation:")][:3]
-        sh(["git", "checkout", "--", "."], cwd=w)
+        sh(["git", "checkout", "HEAD", "--", "."], cwd=w)
         res["demo_without_change"] = sh(["/venv/bin/python", os.path.join(d, "demo.py")], cwd=w).returncode
     finally:
         sh(["git", "-C", "/repo", "worktree", "remove", "--force", w])
